@@ -19,7 +19,7 @@ from .prog import AnalysisError, unparse
 SAFE = {"reversed": reversed, "range": range, "map": map, "filter": filter, "sum": sum, "min": min, "max": max, "abs": abs, "round": round,
         "getattr": getattr, "hasattr": hasattr, "type": type, "dict": dict, "tuple": tuple, "enumerate": enumerate, "zip": zip, "int": int, "float": float,
         "any": any, "all": all, "isinstance": isinstance, "issubclass": issubclass, "callable": callable, "iter": iter, "next": next, "repr": repr, "setattr": setattr,
-        "divmod": divmod, "id": id, "hash": hash, "ord": ord, "chr": chr, "bytes": bytes, "slice": slice, "object": object, "print": (lambda *a, **k: None), "len": len, "str": str, "bool": bool, "frozenset": frozenset,
+        "divmod": divmod, "id": id, "hash": hash, "NotImplemented": NotImplemented, "Ellipsis": Ellipsis, "ord": ord, "chr": chr, "bytes": bytes, "slice": slice, "object": object, "print": (lambda *a, **k: None), "len": len, "str": str, "bool": bool, "frozenset": frozenset,
         "set": set, "list": list, "sorted": sorted, "None": None, "True": True, "False": False}
 
 
@@ -419,6 +419,14 @@ class ClassProxy:
         if ctor is None:
             raise AnalysisError(f"tabulation: no constructor stand-in for {cq}")
         return ctor(*a, **k)
+
+    def __instancecheck__(self, obj: Any) -> bool:
+        """isinstance(x, self.__class__): a stand-in of this class or of a subclass the source knows"""
+        prog, cq = object.__getattribute__(self, "_p")[:2]
+        if not isinstance(obj, Proxy):
+            return False
+        ocq = object.__getattribute__(object.__getattribute__(obj, "_k"), "_p")[1]
+        return ocq == cq or cq in prog.mro(ocq)
 
 
 def _class_attr(prog: Any, cq: str, env: dict[str, Any], kw: dict[str, Any], name: str, klass: Any, inst: Any) -> Any:
